@@ -28,6 +28,7 @@ pub fn partial_key_remove<S: Subject>(sim: &Sim<S>) -> bool {
 
 fn add<S: Subject>(jobs: &mut Vec<Box<dyn JobT>>, variant: &str, w: Weights, ex: &[Class], q: u64, t: u64) {
     let pc = PlanCfg::new(w).steps(4, 28);
+    let pc = pc.long_share(S::LONG);
     let ctx = Ctx::new(Disc::Causal).ex(ex);
     let label = format!("{}/causal/{variant}", S::name());
     jobs.push(
@@ -43,14 +44,18 @@ pub fn property() -> Property {
     let mut jobs: Vec<Box<dyn JobT>> = Vec::new();
     // strict sub-domains: no exemption active at all
     add::<MapOrswot>(&mut jobs, "ops (strict)", Weights::ops_only(), &[], 30000, 400_000);
+    add::<MapOrswotBig>(&mut jobs, "ops (strict)", Weights::ops_only(), &[], 7500, 100000);
     add::<MapMapOrswot>(&mut jobs, "ops (strict)", Weights::ops_only(), &[], 24000, 300_000);
     // MVReg leaves: MAP-T2 exempted per key (extra written values only)
     add::<MapMVReg>(&mut jobs, "ops", Weights::ops_only(), &[Class::T2], 30000, 400_000);
+    add::<MapMVRegBig>(&mut jobs, "ops", Weights::ops_only(), &[Class::T2], 7500, 100000);
     add::<MapMapMVReg>(&mut jobs, "ops", Weights::ops_only(), &[Class::T2], 24000, 300_000);
     // with merges and stale merges: MAP-T1 (+T5 for MVReg leaves)
     add::<MapOrswot>(&mut jobs, "ops+merges+stale", Weights::mixed(), &[Class::T1], 24000, 300_000);
+    add::<MapOrswotBig>(&mut jobs, "ops+merges+stale", Weights::mixed(), &[Class::T1], 6000, 75000);
     add::<MapMapOrswot>(&mut jobs, "ops+merges+stale", Weights::mixed(), &[Class::T1], 18000, 200_000);
     add::<MapMVReg>(&mut jobs, "ops+merges+stale", Weights::mixed(), &[Class::T1, Class::T2, Class::T5], 24000, 300_000);
+    add::<MapMVRegBig>(&mut jobs, "ops+merges+stale", Weights::mixed(), &[Class::T1, Class::T2, Class::T5], 6000, 75000);
     add::<MapMapMVReg>(&mut jobs, "ops+merges+stale", Weights::mixed(), &[Class::T1, Class::T2, Class::T5], 18000, 200_000);
     Property {
         id: "C05",
